@@ -12,11 +12,12 @@ import sys, os, subprocess, json, shutil, re, glob, time
 
 VERIF = os.path.dirname(os.path.dirname(os.path.abspath(__file__)))
 REPO = "/repo"
-SCR = "/tmp/mutcheck"
+SCR = os.environ.get("MUTCHECK_DIR", "/tmp/mutcheck")
 
 
 def sh(cmd, cwd=None, timeout=3600, env=None):
-    p = subprocess.run(cmd, cwd=cwd, shell=isinstance(cmd, str), stdout=subprocess.PIPE, stderr=subprocess.STDOUT, text=True, timeout=timeout, env=env)
+    p = subprocess.run(cmd, cwd=cwd, shell=isinstance(cmd, str), stdout=subprocess.PIPE, stderr=subprocess.STDOUT, text=True, errors="replace",
+                       timeout=timeout, env=env)
     return p.returncode, p.stdout
 
 
@@ -38,7 +39,9 @@ def ensure_scratch():
 
 def build_demo(src, wt, exe):
     if src.endswith(".cpp"):
-        cmd = (f"g++ -std=c++17 -O1 -I{wt}/include -I{wt}/src {src} {wt}/src/common/*.cpp {wt}/src/csv/*.cpp {wt}/src/msgpack/*.cpp "
+        head = open(src, errors="replace").read(3000)
+        extra = "-g -fsanitize=thread " if "-fsanitize=thread" in head.split("#include")[0] and "#error" in head else ""
+        cmd = (f"g++ -std=c++17 -O1 {extra}-I{wt}/include -I{wt}/src {src} {wt}/src/common/*.cpp {wt}/src/csv/*.cpp {wt}/src/msgpack/*.cpp "
                f"-lpugixml -lpthread -o {exe}")
         return sh(cmd, timeout=1800)
     return 0, ""
@@ -93,6 +96,9 @@ def run_checks(patch, props):
 def main():
     if sys.argv[1] == "--checks-only":
         return checks_only(sys.argv[2], sys.argv[3:])
+    confirm_only = sys.argv[1] == "--confirm-only"       # confirmation in the scratch worktree only (can run in parallel with MUTCHECK_DIR set)
+    if confirm_only:
+        sys.argv.pop(1)
     sid, d = sys.argv[1], sys.argv[2]
     props = sys.argv[3:]
     patch = os.path.join(d, "patch.diff")
@@ -120,7 +126,7 @@ def main():
     sh(["git", "-C", wt, "checkout", "--", "."])
     meta["confirmed"] = bool(rc0 == 0 and rc1 != 0 and meta["suite_build"]["exit"] == 0 and rc_t == 0)
     # run the checks against /repo with the patch applied
-    results = run_checks(patch, props)
+    results = {} if confirm_only else run_checks(patch, props)
     meta["checks"] = results
     meta["caught_by"] = [p for p, r in results.items() if r["exit"] == 1 and r["violation"]]
     outdir = os.path.join(VERIF, "seeded", sid)
